@@ -46,7 +46,8 @@ def enumerate_cases(tier, seed):
     for s in specs:
         if g.info(s).depth <= maxd:
             cases.append({"id": "expr|" + g.canon(s), "leg": "expr", "spec": s, "x64": True, "seed": seed, "tier": tier})
-    cases.append({"id": "classes", "leg": "classes", "x64": True, "seed": seed, "tier": tier})
+    for i in range(4):
+        cases.append({"id": f"classes|{i}", "leg": "classes", "part": i, "x64": True, "seed": seed, "tier": tier})
     for i in range(9):
         cases.append({"id": f"dists|{i}", "leg": "dists", "part": i, "x64": True, "seed": seed, "tier": tier})
     for i in range(8):
@@ -96,6 +97,23 @@ def probe_bijection(b, shape, cond_shape, fwd, inv, tag, add, counters, valid_va
             y = out[0] if isinstance(out, tuple) else out
             add(f"{tag}|{m}|accepts-wrong-x", f"{tag}.{m} accepted x of shape {ws} (declared {tuple(shape)}) and returned shape {tuple(y.shape)}",
                 {"wrong_shape": list(ws), "declared": list(shape)})
+        # the same malformed shapes with other accepted ArrayLike dtypes (int32, bool, float16, NumPy float32) and a bare Python int:
+        # the shape check must not depend on the dtype path the input takes
+        others = [(ws, mk) for ws in LATTICE if tuple(ws) != tuple(shape) and (_broadcastable(ws, shape) or int(np.prod(ws)) == int(np.prod(shape)) or len(ws) <= 1)
+                  for mk in (("int32", lambda ws: jnp.ones(ws, jnp.int32)), ("bool", lambda ws: jnp.ones(ws, bool)), ("float16", lambda ws: jnp.full(ws, valid_value, jnp.float16)),
+                             ("numpy-float32", lambda ws: np.full(ws, valid_value, np.float32)))]
+        if tuple(shape) != ():
+            others.append(((), ("python-int", lambda ws: 1)))
+        for ws, (dn, mk) in others:
+            tr += 1
+            try:
+                out = f(mk(ws), good_c)
+            except Exception:
+                counters["rejected"] = counters.get("rejected", 0) + 1
+                continue
+            y = out[0] if isinstance(out, tuple) else out
+            add(f"{tag}|{m}|accepts-wrong-x|{dn}", f"{tag}.{m} accepted a {dn} x of shape {tuple(ws)} (declared {tuple(shape)}) and returned shape {tuple(y.shape)}",
+                {"wrong_shape": list(ws), "declared": list(shape), "dtype": dn})
         if cond_shape is not None:
             tr += 1
             try:
@@ -180,11 +198,14 @@ def _leg_classes(case, add, counters):
     instances.setdefault(type(bna.activation), bna.activation)
     tr = nt = 0
     uncovered = []
-    for cls in sorted(set(_all_subclasses(AbstractBijection)), key=lambda c: c.__module__ + c.__qualname__):
-        if inspect.isabstract(cls) or not cls.__module__.startswith("flowjax") or "numpyro" in cls.__module__:
-            continue
+    concrete = [cls for cls in sorted(set(_all_subclasses(AbstractBijection)), key=lambda c: c.__module__ + c.__qualname__)
+                if not (inspect.isabstract(cls) or not cls.__module__.startswith("flowjax") or "numpyro" in cls.__module__)]
+    for ci_, cls in enumerate(concrete):
         if cls not in instances:
-            uncovered.append(cls.__qualname__)
+            if case.get("part", 0) == 0:
+                uncovered.append(cls.__qualname__)
+            continue
+        if ci_ % 4 != case.get("part", 0):
             continue
         o = instances[cls]
         fwd = True
@@ -394,6 +415,25 @@ def _leg_ctor(case, add, counters):
                     apps.append(("Transformed|cond-mismatch", f"Transformed(base cond {cs}, bijection cond {ai.cond_shape})",
                                  lambda a=a, cs=cs, ai=ai: D.Transformed(
                                      D.Transformed(D.StandardNormal(ai.shape), FB.AdditiveCondition(lambda c: jnp.sum(c), ai.shape, cs)), B(a))))
+    # Partial with a boolean mask: NumPy semantics - the mask must match the LEADING dimensions of the parent shape. Every
+    # (parent shape, mask shape, mask pattern) that does not fit is tried with every child shape of the lattice (also as a
+    # NumPy mask): no combination may be accepted.
+    parents = [(2,), (3,), (2, 3), (3, 2), (2, 2), (2, 3, 2), (3, 1)]
+    mask_shapes = [(1,), (2,), (3,), (4,), (2, 2), (2, 3), (3, 2), (3, 3), (1, 2)]
+    child_shapes = [(), (1,), (2,), (3,), (2, 3), (3, 2), (2, 2), (1, 3), (2, 1), (1, 2), (2, 3, 2), (1, 3, 2), (2, 2, 2)]
+    for ps in parents:
+        for ms in mask_shapes:
+            if len(ms) <= len(ps) and ms == ps[: len(ms)]:
+                continue  # fits
+            n_ = int(np.prod(ms))
+            for pat in ({0}, {0, n_ - 1}, set(range(n_)) - {1 % n_}):
+                mask = np.zeros(n_, bool)
+                mask[list(pat)] = True
+                mask = mask.reshape(ms)
+                for cs in child_shapes:
+                    for as_np in (False, True):
+                        apps.append(("Partial|bool-mask-does-not-fit", f"Partial(child {cs}, boolean mask of shape {ms} = {mask.astype(int).tolist()}, parent shape {ps})",
+                                     lambda cs=cs, mask=mask, ps=ps, as_np=as_np: FB.Partial(FB.Exp(cs), mask if as_np else jnp.asarray(mask), ps)))
     apps.append(("TriangularAffine|non-square", "TriangularAffine(arr 2x3)", lambda: FB.TriangularAffine(0, jnp.ones((2, 3)))))
     apps.append(("Inverter|lower>=upper", "AutoregressiveBisectionInverter(lower=1, upper=1)",
                  lambda: __import__("flowjax.bisection_search", fromlist=["x"]).AutoregressiveBisectionInverter(lower=1.0, upper=1.0)))
